@@ -79,8 +79,8 @@ class RepoClass:
         if self._fields is None:
             f: set[str] = set()
             for s in self._body():
-                if isinstance(s, (ast.FunctionDef, ast.AsyncFunctionDef)) and s.args.args:
-                    selfname = s.args.args[0].arg
+                if isinstance(s, (ast.FunctionDef, ast.AsyncFunctionDef)) and (s.args.posonlyargs or s.args.args):
+                    selfname = (s.args.posonlyargs + s.args.args)[0].arg
                     for n in ast.walk(s):
                         if isinstance(n, ast.Attribute) and isinstance(n.ctx, ast.Store) \
                                 and isinstance(n.value, ast.Name) and n.value.id == selfname:
